@@ -59,7 +59,7 @@ func c14RunHist(c *Ctx) {
 		if a == "singletonsAndOneLongRun" {
 			// a run chunk that is only worth its form because of ONE long run at its upper (or lower) end
 			n := 3 + r.Intn(20)
-			l := 30 + r.Range(0, 400)
+			l := 8 + r.Range(0, 60)
 			pos := r.Range(0, 100)
 			atTop := r.Chance(0.6)
 			if !atTop {
